@@ -12,6 +12,9 @@ rc, o = sh('git -C /repo status --short -- src')
 assert not o.strip(), '/repo not clean: ' + o
 rc, o = sh(f'git -C /repo apply {d}/patch.diff')
 if rc != 0:
+    # /repo has moved on (fix commits) since the seed was made: retry with reduced context
+    rc, o = sh(f'git -C /repo apply -C1 {d}/patch.diff')
+if rc != 0:
     print('APPLY FAILED', o); sys.exit(3)
 res = {}
 try:
